@@ -453,7 +453,16 @@ func c09QRCase(r *fw.Rec, v int, nposes int, sample bool) {
 			r.Violation("orientation", "qr.decoder:mirrored-not-read", fmt.Sprintf("Decoder.Decode did not read the transposed matrix (version %d level %s): %v", v, qrLevelName[s.level], derr), s.info())
 			return
 		case res.GetText() != s.text:
-			r.Violation("misread", "qr.decoder:mirrored-misread", fmt.Sprintf("Decoder.Decode of the transposed matrix returned %q for %q", trunc(res.GetText(), 80), trunc(s.text, 80)), s.info())
+			sig := "qr.decoder:mirrored-misread"
+			if md, isMd := res.GetOther().(*qrdec.QRCodeDecoderMetaData); !isMd || md == nil || !md.IsMirrored() {
+				// the answer of the FIRST, unmirrored pass: the transposed symbol read as it lies (the format
+				// information then names some other level and mask) passed Reed-Solomon
+				sig += ":unmirrored-reading-accepted-by-reed-solomon"
+			}
+			info := s.info()
+			info["returned_level"] = res.GetECLevel()
+			info["returned_raw_bytes"] = fmt.Sprintf("%x", res.GetRawBytes())
+			r.Violation("misread", sig, fmt.Sprintf("Decoder.Decode of the transposed matrix returned %q (level %s, not flagged mirrored: the unmirrored first pass was accepted) for %q written at level %s", trunc(res.GetText(), 80), res.GetECLevel(), trunc(s.text, 80), qrLevelName[s.level]), info)
 			return
 		}
 		md, isMd := res.GetOther().(*qrdec.QRCodeDecoderMetaData)
